@@ -62,7 +62,9 @@ impl Encoder<Bytes> for Identity {
     type Error = Error;
 
     fn encode(&mut self, item: Bytes, dst: &mut bytes::BytesMut) -> Result<(), Self::Error> {
-        if item.len() > self.payload_len || item.is_empty() {
+        // Every frame is exactly `payload_len` bytes long: the decoder cuts the byte stream at
+        // multiples of it, so a shorter item would be glued to the start of the next one.
+        if item.len() != self.payload_len || item.is_empty() {
             return Err(Error::InvalidData);
         }
 
